@@ -34,9 +34,9 @@ PROPS = {
                 "cedar_policy_core::ast::PolicySet and the public cedar_policy::PolicySet; templates with every ==/in/is..in slot form, exact/missing/extra bindings; "
                 "after each op: ok/error kind, renaming, sorted listing from policies()/templates()/get_linked_policies(), authorization on 2 requests. "
                 "(b) linked policy vs Rust parse of the textually substituted static policy on random worlds. (c) all histories of length <=2 (quick) / <=3 (thorough) "
-                "over 2 ids and a 38-letter op alphabet, merge partner fixed. non-trivial = history with >=1 failed op and >=1 successful link, or a linkeq case; "
+                "over 2 ids and a 24-letter op alphabet, merge partner fixed. non-trivial = history with >=1 failed op and >=1 successful link, or a linkeq case; "
                 "distinct by request text",
-        "theorems": ["link_eq_subst", "link_ok_iff", "op_inv", "op_fail_unchanged", "no_panic", "history_inv", "authorize_considers_exactly_links"],
+        "theorems": ["link_eq_subst", "link_outcome_eq_subst", "link_ok_iff", "pset_link_ok_iff", "op_inv", "op_fail_unchanged", "no_panic", "history_inv", "authorize_considers_exactly_links", "refines_spec_partial"],
         "assumptions": ["merge_policyset is covered by the correspondence and the harness oracle only (its invariant/refinement theorems are stated, not proved)",
                         "source locations and the lossless (text/EST/PST) copies kept by the API layer are not modelled"],
     },
